@@ -9,7 +9,7 @@
        class 3 const  tensors rebuilt by the constructor (action bounds, Rainbow support)
        class 4 cfg    mutable size lists inside init_dict (hidden_size, channel_size, ...)
        class 5 ost    optimizer state tensors (exp_avg, exp_avg_sq, step per parameter)
-       class 6 reg    RLParameter objects of registry.hp_config        (owner 0)
+       class 6 reg    RL-param objects of registry.hp_config        (owner 0)
        class 7 book   scores / fitness / steps lists                   (owner 0)
        class 8 ext    other tensor attributes (sigma_inv, theta_0 ...) (owner 0)
        class 9 buf    registered buffers of a network: in state_dict but not in parameters()
